@@ -371,3 +371,35 @@ def main_line(stmts: list) -> list:
                 continue
         out.append(st)
     return out
+
+
+def posted_unconditionally(body: tuple, st) -> bool:
+    """``st`` is a top-level statement of the (canonical) loop body and nothing before it can skip the rest of the
+    iteration (no continue / break / return / raise in an earlier statement)"""
+    if st not in body:
+        return False
+    k = list(body).index(st)
+    return not any(contains(x, (tag,)) or (isinstance(x, tuple) and x and x[0] in ("ret", "raise")) or
+                   bool(atoms_of(x, lambda y: y[0] in ("ret", "raise")))
+                   for x in body[:k] for tag in ("continue", "break"))
+
+
+def support(ctx: Ctx, rule_fns, functions: set) -> int:
+    """Evaluate rules of another property for the current one, restricted to the helper functions the current property's
+    behaviour is computed with: findings located in other functions are dropped (they are that other property's
+    business), sites likewise.  Returns the number of sites kept."""
+    rid = ctx.current.rid
+    kept = 0
+    for fn in rule_fns:
+        n_f, n_s = len(ctx.findings), len(ctx.sites.get(rid, []))
+        fn(ctx)
+        new_f = ctx.findings[n_f:]
+        del ctx.findings[n_f:]
+        ctx.findings.extend(f for f in new_f if f.where.split("::")[-1] in functions)
+        sites = ctx.sites.get(rid, [])
+        new_s = sites[n_s:]
+        del sites[n_s:]
+        keep = [s for s in new_s if s.get("where", "").split("::")[-1] in functions]
+        sites.extend(keep)
+        kept += len(keep)
+    return kept
